@@ -816,7 +816,7 @@ def parse_google(
             blank_lines_below = has_next_lines and _is_empty_line(lines[offset + 2])
             indented_line_below = has_next_line and not blank_line_below and lines[offset + 1].startswith(" ")
             indented_lines_below = has_next_lines and not blank_lines_below and lines[offset + 2].startswith(" ")
-            if not (indented_line_below or indented_lines_below):
+            if not (indented_line_below or (blank_line_below and indented_lines_below)):
                 # Do not warn when there are no contents,
                 # this is most probably not a section or admonition.
                 current_section.append(lines[offset])
